@@ -83,6 +83,31 @@ def strip_comments(src: str) -> str:
     return "".join(out)
 
 
+def blank_comments(src: str) -> str:
+    """comments replaced by spaces, newlines kept (so line numbers survive)"""
+    out, i, depth = [], 0, 0
+    while i < len(src):
+        if src.startswith("/-", i):
+            depth += 1
+            out.append("  ")
+            i += 2
+        elif depth and src.startswith("-/", i):
+            depth -= 1
+            out.append("  ")
+            i += 2
+        elif depth:
+            out.append("\n" if src[i] == "\n" else " ")
+            i += 1
+        elif src.startswith("--", i):
+            while i < len(src) and src[i] != "\n":
+                out.append(" ")
+                i += 1
+        else:
+            out.append(src[i])
+            i += 1
+    return "".join(out)
+
+
 def lean_sources():
     for d, _, fs in os.walk(os.path.join(LEAN, "Flowjaxv")):
         for f in fs:
@@ -105,7 +130,7 @@ def forbidden_scan():
 def theorems_of(path):
     """(qualified name, line) of every theorem in a Props file (single-level namespaces)."""
     out, ns = [], []
-    for i, line in enumerate(open(path).read().split("\n"), 1):
+    for i, line in enumerate(blank_comments(open(path).read()).split("\n"), 1):
         m = re.match(r"\s*namespace\s+(\S+)", line)
         if m:
             ns.append(m.group(1))
@@ -140,7 +165,7 @@ def parse_build_errors(out):
 
 def enclosing_decl(path, line):
     try:
-        lines = open(path).read().split("\n")
+        lines = blank_comments(open(path).read()).split("\n")
     except OSError:
         return None
     for i in range(min(line, len(lines)) - 1, -1, -1):
